@@ -383,22 +383,19 @@ func (c13) Run(t *testing.T, tape *core.Tape, rcx *RunCtx) *core.Result {
 			}
 		})
 		if streaming {
-			sim.AddActor(&core.Actor{
-				Name:    "consumer",
-				Enabled: func() bool { return !closed },
-				Run: func() (string, bool) {
-					select {
-					case r, ok := <-ch:
-						if !ok {
-							closed = true
-							return "closed", true
-						}
-						got = append(got, r)
-						return "record", true
-					default:
-						return "empty", false
+			// the consumer is a real goroutine that blocks in a real receive (a polling
+			// sender must be able to meet it) and yields before every receive, so when it
+			// receives - eagerly, lazily, in bursts, after long stalls - is up to the scheduler
+			sim.GoConsumer(func() {
+				for {
+					sim.Yield("consumer:before-receive")
+					r, ok := <-ch
+					if !ok {
+						closed = true
+						return
 					}
-				},
+					got = append(got, r)
+				}
 			})
 		}
 		sim.Run()
